@@ -11,7 +11,7 @@ for f in $(ls $D/*.diff | sort); do
   git -C /repo apply $f || { printf "%s\tnoapply\n" $n >> $OUT; continue; }
   verdict="missed"; by=""; tie=""
   for p in $ORDER; do
-    out=$(cd /verif && ./check $p quick 2>&1); rc=$?
+    out=$(cd /verif && timeout -k 5 900 ./check $p quick 2>&1); rc=$?
     if echo "$out" | grep "^VIOLATION" | grep -qv "no-failing-input-found"; then
       verdict="caught"; by="$p $(echo "$out" | grep -A1 -m1 '^VIOLATION' | tail -1 | cut -c1-120)"; break
     elif echo "$out" | grep -q "^VIOLATION"; then
